@@ -129,7 +129,7 @@ class EffectsParser:
         :param domain_constants: the constants that exist in the domain.
         """
         self.logger.debug("Parsing conditional effect node.")
-        if len(conditional_effect_ast[1:]) != 2:
+        if conditional_effect_ast[0] != WHEN_OPERATOR or len(conditional_effect_ast[1:]) != 2:
             raise SyntaxError(
                 f"Conditional effect scheme does not match schema! {conditional_effect_ast}"
             )
@@ -249,6 +249,11 @@ class EffectsParser:
                 continue
 
             if effect_node[0] == NOT_OPERATOR:
+                if effect_node[1][0] not in domain_predicates:
+                    raise SyntaxError(
+                        f"Unknown effect node in action {new_action.name}: {effect_node}"
+                    )
+
                 new_action.discrete_effects.add(
                     parse_untyped_predicate(
                         effect_node[1],
@@ -291,3 +296,7 @@ class EffectsParser:
                 )
                 new_action.numeric_effects.add(numerical_precondition)
                 continue
+
+            raise SyntaxError(
+                f"Unknown effect node in action {new_action.name}: {effect_node}"
+            )
